@@ -39,10 +39,7 @@ var _ *raft.RaftGroup
 //@ props C14 C05 C20
 //@ ensures [built] ret != nil && fresh(ret) && ret.clusterConn == clusterConn && ret.zeroGroup == zeroGroup
 //@ modifies nothing
-//@ func storage.NewDatasetManager
-//@ props C14 C05
-//@ assume
-//@ modifies * except type raft.RaftGroup.raftLeaderId; type raft.RaftGroup.transport; type raft.RaftGroup.raft; type raft.RaftGroup.wal; type raft.RaftGroup.processFn; type raft.RaftGroup.processSnapshotFn; type raft.RaftGroup.snapshotFn; type raft.RaftGroup.ctx; type raft.RaftGroup.log; type raft.RaftGroup.id; type Server.zeroGroup; type Server.config; type Server.db; type Server.clusterConn; type Server.allocator
+// (storage.NewDatasetManager is verified in package storage)
 //@ func (*anndb.Server).getRaftNodeId
 //@ props C14 C05
 //@ assume
